@@ -90,6 +90,20 @@ theorem makeOriented_spec {m : ℕ} (F M : Matrix (Fin (m + 1)) (Fin (m + 1)) K)
     makeOriented M * F * (makeOriented M)ᵀ = Matrix.diagonal d ∧ 0 < (makeOriented M).det :=
   makeOriented_spec' F M d h hdet
 
+/-- `make_orientation_preserving` touches only the last row ("the corresponding matrix in `result` has its last row
+negated"): every other row is returned unchanged, the last row is kept or negated -/
+theorem makeOriented_rows {m : ℕ} (M : Matrix (Fin (m + 1)) (Fin (m + 1)) K) :
+    (∀ i, i ≠ Fin.last m → makeOriented M i = M i) ∧
+    (makeOriented M (Fin.last m) = M (Fin.last m) ∨ makeOriented M (Fin.last m) = -M (Fin.last m)) := by
+  unfold makeOriented negLastRow
+  split_ifs with h
+  · refine ⟨fun i hi => ?_, Or.inr ?_⟩
+    · show (if i = Fin.last m then -M i else M i) = M i
+      rw [if_neg hi]
+    · show (if Fin.last m = Fin.last m then -M (Fin.last m) else M (Fin.last m)) = -M (Fin.last m)
+      rw [if_pos rfl]
+  · exact ⟨fun _ _ => rfl, Or.inl rfl⟩
+
 /-- `make_orientation_preserving` of an isometry is an isometry of positive determinant -/
 theorem makeOriented_isIso {M : Matrix (Fin (n + 1)) (Fin (n + 1)) K} (h : IsIso M) :
     IsIso (makeOriented M) ∧ 0 < (makeOriented M).det := by
